@@ -101,6 +101,7 @@ type funcTrans struct {
 	appendSites []token.Pos // append call sites by source position (for "callreq append#k")
 	retreqOK  map[int]int    // per retreq clause: number of return sites where it was evaluated
 	retreqErr map[int]string // last reason it was skipped
+	iterpostOK map[string]bool // "loop.k": iterpost clause evaluated at some back edge
 	varargBefore map[ssa.Value]string // one-element varargs arrays: element heap symbol before the array was allocated
 	pureCache map[string]*Val // results of pure calls by (callee, arguments, heap versions)
 	w        *World
@@ -336,6 +337,16 @@ func (ft *funcTrans) run() (err error) {
 		for i := range ft.c.RetReqs {
 			if ft.retreqOK[i] == 0 {
 				panic(unsupportedErr(fmt.Sprintf("retreq%d could not be evaluated at any return site (%s)", i+1, ft.retreqErr[i])))
+			}
+		}
+		for _, li := range ft.loopList {
+			if li.lc == nil {
+				continue
+			}
+			for k := range li.lc.IterPost {
+				if !ft.iterpostOK[fmt.Sprintf("%d.%d", li.ordinal, k+1)] {
+					panic(unsupportedErr(fmt.Sprintf("loop%d.iterpost%d could not be evaluated at any back edge", li.ordinal, k+1)))
+				}
 			}
 		}
 	}
